@@ -97,6 +97,25 @@ func fromBE(b []value) *Term {
 	return r
 }
 
+// pow2Sym returns 2^n for a symbolic n with a small known range (ite chain), or nil.
+func pow2Sym(n *Term) *Term {
+	if n.Op == OpConst {
+		if n.Val.IsInt64() && n.Val.Int64() >= 0 && n.Val.Int64() <= 4096 {
+			return CInt(Pow2(int(n.Val.Int64())))
+		}
+		return nil
+	}
+	if n.Lo == nil || n.Hi == nil || n.Lo.Sign() < 0 || !n.Hi.IsInt64() || n.Hi.Int64() > 1024 {
+		return nil
+	}
+	hi := n.Hi.Int64()
+	var r *Term = CInt(Pow2(int(hi)))
+	for k := hi - 1; k >= n.Lo.Int64(); k-- {
+		r = Ite(Eq(n, CI(k)), CInt(Pow2(int(k))), r)
+	}
+	return r
+}
+
 func init() {
 	type I = intrinsic
 	bin := func(f func(c *Ctx, x, y *Term, pos token.Pos) *Term) I {
@@ -200,18 +219,18 @@ func init() {
 		return c.setBig(a[0], fromBE(a[1].([]value)), pos)
 	}
 	intrinsics[B+"Lsh"] = func(c *Ctx, fr *frame, fn *ssa.Function, a []value, pos token.Pos) value {
-		n, ok := concreteInt(a[2])
-		if !ok {
-			c.unsupported("big.Int.Lsh by symbolic amount")
+		p := pow2Sym(asTerm(a[2]))
+		if p == nil {
+			c.unsupported("big.Int.Lsh by unbounded symbolic amount")
 		}
-		return c.setBig(a[0], Mul(c.bigOf(a[1], pos), CInt(Pow2(int(n)))), pos)
+		return c.setBig(a[0], Mul(c.bigOf(a[1], pos), p), pos)
 	}
 	intrinsics[B+"Rsh"] = func(c *Ctx, fr *frame, fn *ssa.Function, a []value, pos token.Pos) value {
-		n, ok := concreteInt(a[2])
-		if !ok {
-			c.unsupported("big.Int.Rsh by symbolic amount")
+		p := pow2Sym(asTerm(a[2]))
+		if p == nil {
+			c.unsupported("big.Int.Rsh by unbounded symbolic amount")
 		}
-		return c.setBig(a[0], Div(c.bigOf(a[1], pos), CInt(Pow2(int(n)))), pos)
+		return c.setBig(a[0], Div(c.bigOf(a[1], pos), p), pos)
 	}
 	intrinsics[B+"Exp"] = func(c *Ctx, fr *frame, fn *ssa.Function, a []value, pos token.Pos) value {
 		x, y := c.bigOf(a[1], pos), c.bigOf(a[2], pos)
@@ -221,6 +240,15 @@ func init() {
 			if m.Op == OpConst && m.Val.Sign() == 0 {
 				m = nil
 			}
+		}
+		if y.Op != OpConst && x.Op == OpConst && y.Lo != nil && y.Hi != nil && y.Lo.Sign() >= 0 && y.Hi.IsInt64() && y.Hi.Int64() <= 1024 && m == nil {
+			// constant base, small symbolic exponent: ite chain
+			hi := y.Hi.Int64()
+			var r *Term = CInt(new(big.Int).Exp(x.Val, y.Hi, nil))
+			for k := hi - 1; k >= y.Lo.Int64(); k-- {
+				r = Ite(Eq(y, CI(k)), CInt(new(big.Int).Exp(x.Val, big.NewInt(k), nil)), r)
+			}
+			return c.setBig(a[0], r, pos)
 		}
 		if y.Op != OpConst || !y.Val.IsInt64() || y.Val.Int64() > 4096 {
 			c.unsupported("big.Int.Exp with symbolic or huge exponent at %s", c.posStr(pos))
